@@ -2,7 +2,7 @@
    what the implementation was observed to do, checked against the model. *)
 From Coq Require Import String List NArith ZArith Bool.
 From J5V.lib Require Import Outcome Corr Json.
-From J5V.model Require Import CodecTypes CodecDecScalar CodecDec CodecDecQuery CodecDecTree CodecDecTime CodecDecCommute CodecDecFloat.
+From J5V.model Require Import CodecTypes CodecDecScalar CodecDec CodecDecQuery CodecDecTree CodecDecTime CodecDecCommute CodecDecFloat CodecDecExposedCheck.
 From J5V.lib Require Decimal.
 Import ListNotations.
 Local Open Scope N_scope.
@@ -42,7 +42,7 @@ Inductive deccase :=
    bound avoids) *)
 | CDecimal (s : bytes) (r : option (bytes * Z))
 (* an environment of the run (dumped from the real reflector): well-formed, and satisfying the schema
-   conditions of the exactness (env_separate) and member-reordering (env_commute) theorems; checked once
+   conditions of the exactness (env_separate, env_exposed_ok) and member-reordering (env_commute) theorems; checked once
    per environment, the decode cases refer to the same definitions *)
 | CEnv (e : env).
 
@@ -99,5 +99,5 @@ Definition dec_check (c : deccase) : bool :=
       env_wf e && float_table_ok ft && time_table_ok tmt && decimal_table_ok dt && existsb (fun p => obs_matches (decode_query (orc_of ft tmt dt) e root p) obs) (perms kvs)
   | CTime s r => time_eqb (go_time_parse s) r
   | CDecimal s r => decimal_obs_ok s r
-  | CEnv e => env_wf e && env_separate e && env_commute e
+  | CEnv e => env_wf e && env_separate e && env_commute e && env_exposed_ok e
   end.
